@@ -35,6 +35,11 @@ CHECKS["C08"] = {
     "note": "Trusted: Coq kernel + vm_compute; gorgonia Slice/Transpose/Concat/Repeat modelled (G/Slice.v matched 7287 probed calls in the design round); harness and driver. Gather's block-copy loop is represented by its index formula (validated by the exhaustive cases, not yet by a loop proof).",
     "technique": "Coq models + ONNX index-formula specs, bounded-exhaustive correspondence check judged in Coq; Expand reduced to the proved broadcast theorem",
 }
+CHECKS["C03"] = {
+    "text": "Theorems (axiom-free): for operands of any rank with positive extents and equal element type and ANY scalar operation g, the model of ApplyBinaryOperation (multidirectional broadcast, dtype check, kernel) returns exactly the ONNX result -- broadcast shape, result dtype, g applied to the correspondingly broadcast elements -- or an error when the shapes are incompatible (C03_binop_is_onnx, resting on the C14 broadcast theorem); refused element types never yield a value; the integer kernels are two's-complement wrap-around and truncating division (lemmas); float kernels are Flocq's IEEE-754 binary32/64 operations by definition. Tie: 12 operators x every dtype the gate accepts (gate read from the operator table regenerated from /repo) x broadcast shape pairs x special-value pools, executed on the implementation and compared BIT FOR BIT in Coq against S and M. One known-finding class (float division by +-0 in gorgonia's kernels).",
+    "note": "Trusted: Coq kernel + vm_compute; Flocq 4.1 as the definition of IEEE-754; gorgonia's elementwise kernels are modelled by Model/Scalar.v and validated by sampling only; harness and driver.",
+    "technique": "Coq proof (binary-op model = ONNX broadcast formula) + bit-exact Flocq/wrap arithmetic correspondence check judged in Coq",
+}
 
 _PENDING = "check under construction in this round; not yet claimed"
-NOT_APPLICABLE = {p: _PENDING for p in ["C01", "C02", "C03", "C04", "C05", "C06", "C09", "C10", "C11", "C12", "C13", "C16", "C17", "C18"]}
+NOT_APPLICABLE = {p: _PENDING for p in ["C01", "C02", "C04", "C05", "C06", "C09", "C10", "C11", "C12", "C13", "C16", "C17", "C18"]}
